@@ -31,7 +31,7 @@ HAZARDS = [
     "missing_include", "dir_include", "undecodable_include", "nul_bytes_include", "empty_include", "self_include",
     "cycle2", "cycle3", "deep_chain", "long_name_include", "bad_encoding", "nested_in_directive", "include_twice",
     "long_link", "dir_link", "odd_links", "literal_include_binary", "include_md_doc", "discarded_body",
-    "discarded_body", "long_line", "outside_srcdir_include", "relative_docs_include", "relative_docs_include",
+    "discarded_body", "discarded_body", "long_line", "outside_srcdir_include", "relative_docs_include", "relative_docs_include",
     "bad_urls",
 ]
 INV_HAZARDS = ["inv_missing", "inv_dir", "inv_bad_header", "inv_not_compressed", "inv_corrupt_zlib", "inv_bad_utf8",
@@ -108,21 +108,24 @@ def apply(r, proj: dict, front_end: str, n: int) -> list[str]:
             files["inc/bin2.inc"] = {"hex": "00010203fffefd"}
             _append(files, doc, _inc(rel("inc/bin2.inc"), {"literal": ""}))
         elif h == "discarded_body":
-            # a directive that parses its body into a throw-away node and then rejects it: whatever the body
-            # registered with the document (footnotes, targets, references, substitution uses) is left detached
-            inner = r.choice(["[^dfn]: a footnote defined inside\n\ntext[^dfn]", "(discarded-target)=\n## Heading inside",
-                              "[ref-9]: https://example.com/9\n\n[x][ref-9] text[^a]", "{{ key1 }} [](#discarded-target)",
-                              "```{note}\n[^nfn]: nested footnote\n```\n\nuse[^nfn]"])
+            # a directive that parses its body into a throw-away node and then rejects it (figure with a bad caption,
+            # table / list-table with a non-table body, figure-md with a bad body): whatever the body registered with
+            # the document - footnotes, targets, reference definitions, substitution uses - is left detached
+            n = r.randint(1, 99)
+            inner = (f"[^dfn{n}]: a footnote defined inside\n\ntext[^dfn{n}] [^a]\n\n" + r.choice([
+                f"(discarded-target-{n})=\n## Heading inside", f"[ref-9]: https://example.com/9\n\n[x][ref-9]",
+                "{{ key1 }} [](#discarded-target)", f"```{{note}}\n[^nfn{n}]: nested footnote\n```\n\nuse[^nfn{n}]",
+                "$$\nx\n$$ (discarded-eq)", "plain"]))
             _append(files, doc, r.choice([
                 f"```{{figure}} img.png\n\n- not a paragraph caption\n\n{inner}\n```",
-                f"```{{figure-md}}\nno image here\n\n{inner}\n\nthird block\n```",
+                f"```{{figure}} img.png\n\n- not a paragraph caption\n\n{inner}\n```",
                 f"```{{list-table}}\n\n{inner}\n```",
                 f"```{{table}} T\n\n{inner}\n```",
-                f"```{{csv-table}} T\n:header: {inner.splitlines()[0]}\n\na,b\n```",
-                f"```{{sidebar}}\n\n{inner}\n```",
-                f"```{{epigraph}}\n```\n\n{inner}",
-                f"```{{topic}}\n{inner}\n```",
-            ]) + "\n\nafter[^dfn] [](#discarded-target)")
+                f"```{{figure-md}}\nno image here\n\n{inner}\n\nthird block\n```",
+                f"````{{note}}\n```{{list-table}} T\n\n{inner}\n```\n````",
+            ]) + f"\n\nafter [](#discarded-target-{n})")
+            # (no reference to the discarded footnote from outside the body: docutils leaves such a footnote
+            # detached, and Sphinx's latex footnote transform then raises for rST sources just the same - upstream)
         elif h == "long_line":
             # docutils refuses a source with a line longer than line_length_limit (10 000) before any rendering
             n = r.choice([10_001, 10_050, 25_000])
